@@ -3,14 +3,27 @@
 (1) TLC model-checks spec/UndoIo.tla (transcription of lib/ext2fs/undo_io.c and misc/e2undo.c on a device of
     granules): U1 write-ahead / exactly once, U2 e2undo restores the original device over its original length (an
     unfinished record too, and is reported), U3 every key in the unit the header announces, R1/R2 damaged files are
-    refused without a write and -n never writes, Layout (writer and reader agree on the file layout).
+    refused without a write and -n never writes, Layout (writer and reader agree on the file layout), AppendPos (the
+    writer -- a reopened one too -- appends behind everything its reader finds in the file).
 (2) API level: operation histories run through undo_io_manager over unix_io by harness/undodrv.c, then the real e2undo;
     every call is one line (undo file as found on disk by the driver's own reader of the format), validated by TLC
-    against spec/Trace_UndoIo.tla with all invariants evaluated after every line.
+    against spec/Trace_UndoIo.tla.  The conformance model is UndoIo with the two unrepaired deviations switched on; EVERY
+    line of EVERY history must be a step of it (key positions, key block positions, data tags, header, device), the hard
+    invariants R1 R2 Layout AppendPos QuietOk stop TLC, the property invariants U1-U3 are evaluated after every line and
+    reported (PROPFAIL) without stopping: a history is the known finding showing only if the literal model explained every
+    line of it and a deviation was active (QuietOk).  Universe: device sizes of every residue modulo the undo block size
+    (a device that ends in a partial undo block), chains of up to three runs, offsets, block size changes; the histories
+    that reach each element of the boundary catalogue of Trace_UndoIo (Catalogue) are enumerated over the constants
+    (directed_api), TLC reports which elements were reached (CAT) and the check is BROKEN, not passed, if one is missing.
 (3) Tool level: every tool with -z (mke2fs, tune2fs, resize2fs, e2fsck, debugfs -w, e2undo -z), single runs and
     chains into ONE undo file, under harness/iotrace.so on the device and the undo file; the system calls are validated
     by TLC against spec/Trace_UndoRun.tla (write-ahead order, exactly once, unit), then e2undo must make the device
     byte-identical to its pre-run copy over the original length (unfinished record: plus the needs-check mark).
+    Universe = the hand-written list (offsets, mixed block sizes, undo of the undo, unfinished records) + the product
+    operation x base image x image state (journal that needs recovery, orphan list, damage that makes e2fsck restart)
+    x device tail (device length not a multiple of the undo block size) enumerated by TLC from spec/UndoRunUniv.tla; an
+    enumerated element counts only if its run reached what UndoRunUniv!Expect says (journal replayed, restarted, a later
+    run appended behind a key that ends in a short block, ...).
 (4) Damage sweep: single bit flips over the checksummed bytes of the undo file (this module's own python reader of the
     format says which bytes those are): plain e2undo must exit non-zero with zero write-class calls on the device;
     -n never writes."""
@@ -471,7 +484,7 @@ def api_validate(tbs, cfg, workdir, chunk_lines, mod=API_MOD):
                 if stop is not None and j > stop:
                     continue
                 out["propfail"].setdefault(chk[j], [])
-                if (k, inv, devs) not in out["propfail"][chk[j]]:
+                if inv not in [x[1] for x in out["propfail"][chk[j]]]:          # the first line at which each invariant fails
                     out["propfail"][chk[j]].append((k, inv, devs))
         chunks = nxt; rnd += 1
     return out
@@ -1495,17 +1508,26 @@ def run(tier):
         ev.cov["rule"] = ("evaluations = API histories + recorded tool scenarios + e2undo runs on damaged undo files; non-trivial = API history with a "
                           "re-written undo block (first-write-wins exercised), a key extension, a key-block rollover or a chain reopen, or a tool "
                           "scenario that is a chain or saves more than one undo block; distinct by command sequence / scenario name")
-        ev.cov["checker_cmd"] = ("tlc -config MC_UndoIo.cfg spec/UndoIo.tla (INVARIANT TypeOK U1 U2 U3 R1 R2 Layout); TRACE=<chunk> tlc -workers 1 "
-                                 "spec/Trace_UndoIo.tla (same invariants, POSTCONDITION TraceAccepted); TRACE=<chunk> tlc -workers 1 spec/Trace_UndoRun.tla "
-                                 "(INVARIANT WriteAhead ExactlyOnce UnitOk UndoContract)")
+        ev.cov["checker_cmd"] = ("tlc -config MC_UndoIo.cfg spec/UndoIo.tla (INVARIANT TypeOK U1 U2 U3 R1 R2 Layout AppendPos); TRACE=<chunk> tlc -workers 1 "
+                                 "spec/Trace_UndoIo.tla (DevAbsTiling DevChanUnits TRUE; INVARIANT PropReport R1 R2 Layout AppendPos QuietOk, POSTCONDITION "
+                                 "TraceAccepted; U1 U2 U3 reported per line); OUT=<json> tlc spec/Emit_UndoRunUniv.tla; TRACE=<chunk> tlc -workers 1 "
+                                 "spec/Trace_UndoRun.tla (INVARIANT WriteAhead ExactlyOnce UnitOk UndoContract)")
         ev.assumptions = [
             "io_channel_set_blksize (or the tdb_data_size option, or a reopened undo file) precedes the first write of a run, as in every tool (the undo block size would be 0 otherwise)",
             "write / zeroout / discard counts and byte counts are non-zero",
             "the device is at least offset + 2 KiB long (it holds a superblock area at the filesystem offset)",
             "all runs of a chain address the filesystem at the same offset; io_channel_zeroout / io_channel_discard are issued on a flushed channel "
             "(the unix_io cache incoherence of zeroout / discard belongs to C17)",
-            "API-level byte offsets and sizes are multiples of 16 (the content tag granularity of the driver); offsets given to the API level are multiples of 1 KiB, "
-            "odd filesystem offsets (96255, 70656) are exercised at tool level",
+            "API-level byte offsets and sizes are multiples of 16 (the content tag granularity of the driver); offsets and device sizes given to the API level are "
+            "multiples of 1 KiB (device sizes of every residue modulo the undo block sizes 2 and 4 KiB), odd filesystem offsets (96255, 70656) are exercised at tool level",
+            "API level: the undo block holds one channel block or more than 4 (unix_io's WRITE_DIRECT_SIZE: such reads bypass its cache), as in every tool (undo block = block size, "
+            "or mke2fs's 32 KiB with blocks of at most 4 KiB); the API histories scale these ratios down to 2 and 4, so the driver switches the backing manager's cache off -- with it on, "
+            "unix_io splits a read of 2-4 blocks at a cached block and undo_write_tdb takes the size of a short read (undo block across the end of the device) from the last piece only "
+            "(latent library defect no in-tree caller can reach: replays/C12/latent_short_read_split.json)",
+            "a property invariant that fails in an API history is attributed to a known deviation only if TLC matched every line of the history against the literal model and "
+            "the deviation's formula differed from the repaired one on some line (Trace_UndoIo!QuietOk); anything else is a violation",
+            "chains of the enumerated tool universe use one block size (1 KiB) throughout: chains of mixed block sizes are the known finding DevChanUnits and stay the listed elements",
+            "image states of the enumerated tool universe are prepared with debugfs (journal transaction via jo/jw/jc, orphan list via sif/ssv, illegal block numbers via sif) before the recorded run",
             "a write whose last undo block starts at or beyond the end of the device fails with EXT2_ET_SHORT_READ and is not performed (modelled as the code does it; the property is not affected)",
             "for an unfinished record the device is compared outside the superblock / group descriptor blocks (e2undo re-opens the filesystem to clear the VALID flag, which rewrites them)",
             "the specification is the behaviour after fixes/C12_*.patch (Dev* constants FALSE); the literal behaviour of the pinned tree is kept behind the Dev* constants",
